@@ -369,7 +369,25 @@ def plan_C06(prop, tier, seed, t0):
                     "expectation / marginal it must be")
 
 
-PLANS = {"C01": plan_C01, "C06": plan_C06, "C05": plan_C05, "C09": plan_C09, "C03": plan_C03, "C12": plan_C12, "C11": plan_C11, "C08": plan_C08, "C02": plan_C02, "C04": plan_C04, "C10": plan_C10, "C15": plan_C15}
+def plan_C07(prop, tier, seed, t0):
+    q = tier == "quick"
+    mcs = [dict(name="ring", module="MC_Ring.tla", cfg="MC_Ring.cfg", timeout=2000)]
+    T = dict(module="Trace_Scalar.tla", cfg="Trace_Scalar.cfg")
+    traces = [
+        dict(name="hist", engine="scalar", args=["--dyadic", 160 if q else 3000, "--scalar", 160 if q else 3000, "--len", 60], **T),
+        dict(name="long", engine="scalar", args=["--dyadic", 16 if q else 200, "--scalar", 16 if q else 200, "--len", 400], **T),
+    ]
+    return run_plan(prop, tier, seed, t0, mcs, traces, "model_checking", COMMON_ASSUME + [
+                        "arbitrary-precision arithmetic is written in TLA+ (spec/BigNat.tla) and evaluated by TLC; mantissas travel as base-2^15 limbs",
+                        "exponents are kept where doubles exist (|log2| <= 900): exponent overflow is outside the property"],
+                    "MC: ring laws, conjugation, roots of unity, sqrt2 powers, multiplicativity of |z|^2, exact phase recognition on the algebraic "
+                    "specification (Ring.tla) over all pairs of small elements; TRACE: one execution = one seeded history of 60-400 operations on "
+                    "registers of Dyadic / Scalar4 values (constants incl. full 64-bit mantissas, doubles, phases; + - * neg conj sqrt2-powers "
+                    "phases; comparisons, tests, views, float conversions); TLC recomputes the exact value of every register with BigNat and decides "
+                    "Normalised, Honest (unflagged => exact), order / abs_diff_eq / tests, float conversions within 1e-12; non-trivial = operations producing a value")
+
+
+PLANS = {"C01": plan_C01, "C07": plan_C07, "C06": plan_C06, "C05": plan_C05, "C09": plan_C09, "C03": plan_C03, "C12": plan_C12, "C11": plan_C11, "C08": plan_C08, "C02": plan_C02, "C04": plan_C04, "C10": plan_C10, "C15": plan_C15}
 
 TECH = "explicit TLA+ specification; TLC exhaustive model checking of the spec + TLC trace validation of recorded executions of the real code"
 META = {
@@ -449,8 +467,17 @@ META["C06"] = dict(level="model_checking", engine="sim", design_ref="DESIGN.md s
          "that each is exactly the amplitude / expectation / marginal required, that the sampler uses the conditional probability, that printed "
          "samples have non-zero probability, and that malformed queries are rejected without a panic.",
     note="<=3 qubits, <=8 gates; floating point (printed decimals, p) compared at 1e-9 in the harness; distribution of the PRNG not tested")
+META["C07"] = dict(level="model_checking", engine="scalar", design_ref="DESIGN.md section 3 C07", technique=TECH,
+    text="Two layers. spec/Ring.tla is the algebraic specification of Scalar4 (model-checked ring laws). spec/Dyadic.tla on spec/BigNat.tla "
+         "(arbitrary-precision naturals written in TLA+) specifies the 64-bit-mantissa format; the format cannot be enumerated, so TLC "
+         "validates recorded operation histories of the real code: it carries an exact ghost value per register and decides for every "
+         "operation that unflagged results are exact, results are normalised, ordering/equality/zero/one tests and abs_diff_eq agree with the "
+         "reals, and f64 / complex conversions are within 1e-12 (an integer inequality on BigNats, including the sqrt2 terms).",
+    note="exponent overflow excluded; the exhaustive part covers the algebra only, the number format is covered by trace validation of random and directed histories")
 NOT_APPLICABLE = {}
 ENGINES = [
+    {"name": "scalar", "path": "spec/BigNat.tla spec/Dyadic.tla spec/Ring.tla mc/MC_Ring.tla mc/Trace_Scalar.tla harness/src/eng_scalar.rs",
+     "serves_properties": ["C07"], "kind_free_text": "ring laws under TLC + trace validation with exact BigNat ghosts"},
     {"name": "sim", "path": "spec/Sim.tla mc/MC_Sim.tla mc/Trace_Sim.tla harness/src/eng_sim.rs",
      "serves_properties": ["C06"], "kind_free_text": "TLC Born-rule consistency + trace validation of the CLI binary with sampler hooks"},
     {"name": "decomp", "path": "spec/Decomp.tla spec/DecompPar.tla mc/MC_Decomp.tla mc/MC_DecompPar.tla mc/Trace_Decomp.tla harness/src/eng_decomp.rs",
